@@ -312,6 +312,7 @@ type fileCtx struct {
 	// constant declarations and array lengths (must stay builtins)
 	usesChannels bool
 	constCtx     map[*ast.CallExpr]bool
+	chanRange    map[*ast.RangeStmt]bool
 }
 
 // analyse finds, per function containing a `go` closure, the closure's free variables declared in
@@ -419,6 +420,16 @@ func (c *fileCtx) analyse() {
 		return true
 	})
 
+	c.chanRange = map[*ast.RangeStmt]bool{}
+	ast.Inspect(c.file, func(n ast.Node) bool {
+		if rs, ok := n.(*ast.RangeStmt); ok {
+			if id, ok := rs.X.(*ast.Ident); ok && id.Obj != nil && declaredAsChannel(id) {
+				c.chanRange[rs] = true
+				c.usesChannels = true
+			}
+		}
+		return true
+	})
 	c.constCtx = map[*ast.CallExpr]bool{}
 	markConst := func(n ast.Node) {
 		ast.Inspect(n, func(m ast.Node) bool {
@@ -773,9 +784,31 @@ func (c *fileCtx) rewrite() {
 			}
 
 		case *ast.RangeStmt:
-			// range over a channel cannot be told apart without type information; the shimmed
-			// channels are never operated on directly, so a real range would hang: the watchdog in
+			// range over a channel: recognised when the operand is an identifier whose declaration
+			// shows a channel (make(chan T...), a parameter / variable of channel type); rewritten to
+			//     for { v, ok := vs.Recv2(ch); if !ok { break }; body }
+			// Any other range over a channel cannot be told apart without type information; the
+			// shimmed channels are never operated on directly, so it would hang: the watchdog in
 			// vs.Run turns that into a machinery error.
+			if c.chanRange[x] {
+				c.usedShim = true
+				tmp++
+				okName := fmt.Sprintf("vsok%d", tmp)
+				var val ast.Expr = ast.NewIdent("_")
+				if x.Key != nil {
+					val = x.Key
+				}
+				tok := token.DEFINE
+				pre := []ast.Stmt{}
+				if x.Tok == token.ASSIGN {
+					tok = token.ASSIGN
+					pre = append(pre, &ast.DeclStmt{Decl: &ast.GenDecl{Tok: token.VAR, Specs: []ast.Spec{&ast.ValueSpec{Names: []*ast.Ident{ast.NewIdent(okName)}, Type: ast.NewIdent("bool")}}}})
+				}
+				recv := &ast.AssignStmt{Lhs: []ast.Expr{val, ast.NewIdent(okName)}, Tok: tok, Rhs: []ast.Expr{call("Recv2", x.X)}}
+				brk := &ast.IfStmt{Cond: &ast.UnaryExpr{Op: token.NOT, X: ast.NewIdent(okName)}, Body: &ast.BlockStmt{List: []ast.Stmt{&ast.BranchStmt{Tok: token.BREAK}}}}
+				body := append(append(pre, recv, brk), x.Body.List...)
+				return &ast.ForStmt{For: x.For, Body: &ast.BlockStmt{Lbrace: x.Body.Lbrace, List: body, Rbrace: x.Body.Rbrace}}
+			}
 
 		case *ast.Ident:
 			if !c.skip[x] && !c.decls[x] {
@@ -1152,4 +1185,41 @@ func rewritePackage(repo, rel, out string, overlay map[string]string) []string {
 	}
 
 	return report
+}
+
+// declaredAsChannel: does the declaration of this identifier show, syntactically, a channel?
+func declaredAsChannel(id *ast.Ident) bool {
+	isMakeChan := func(e ast.Expr) bool {
+		ce, ok := e.(*ast.CallExpr)
+		if !ok || len(ce.Args) == 0 {
+			return false
+		}
+		f, ok := ce.Fun.(*ast.Ident)
+		if !ok || f.Name != "make" || f.Obj != nil {
+			return false
+		}
+		_, ok = ce.Args[0].(*ast.ChanType)
+		return ok
+	}
+	switch d := id.Obj.Decl.(type) {
+	case *ast.Field:
+		_, ok := d.Type.(*ast.ChanType)
+		return ok
+	case *ast.ValueSpec:
+		if _, ok := d.Type.(*ast.ChanType); ok {
+			return true
+		}
+		for i, n := range d.Names {
+			if n.Name == id.Name && len(d.Values) == len(d.Names) {
+				return isMakeChan(d.Values[i])
+			}
+		}
+	case *ast.AssignStmt:
+		for i, l := range d.Lhs {
+			if n, ok := l.(*ast.Ident); ok && n.Name == id.Name && len(d.Lhs) == len(d.Rhs) {
+				return isMakeChan(d.Rhs[i])
+			}
+		}
+	}
+	return false
 }
